@@ -558,8 +558,12 @@ class FX:
 
     # ------------------------------------------------------------------ canonicalisation
     def canon(self, e, env):
-        """Canonical expression: locals/aliases substituted."""
-        return _Canon(self, env).visit(copy.deepcopy(e))
+        """Canonical expression: locals/aliases substituted, literal arithmetic folded."""
+        r = _Canon(self, env).visit(copy.deepcopy(e))
+        if isinstance(r, ast.AST) and not os.environ.get("LXS_NO_CMPCANON"):
+            from . import names
+            r = names.canon_consts(ast.Expression(body=r)).body
+        return r
 
     def ctext(self, e, env):
         return norm(self.canon(e, env))
@@ -988,6 +992,14 @@ class FX:
         for t in targets:
             self._store(t, val, env, st, value)
 
+    def _inlinable_helper(self, mod, name):
+        """Module-level helper functions that build statements/expressions are inlined when they are on the list the rules were
+        written with, or when the pinned tree does not have them at all (extract-function refactoring)."""
+        if name in INLINE_HELPERS:
+            return True
+        from . import names
+        return names.new_toplevel(mod.rel, name)
+
     def _keeps_name(self, name):
         """A local bound to a long / numeric expression keeps its name in the IR only when the name is one the rules were written
         against (recorded in localnames.json); a local introduced later (extract-variable refactoring) is inlined, so the IR does
@@ -1292,9 +1304,9 @@ class FX:
         # --- closures / helpers returning statements
         if isinstance(f, ast.Name) and isinstance(env.get(f.id), Closure):
             return self._inline(env[f.id], inner, env, is_method=False)
-        if isinstance(f, ast.Name) and f.id in INLINE_HELPERS and f.id not in env:
+        if isinstance(f, ast.Name) and f.id not in env:
             for m in [self.mod] + self.extra_mods:
-                if f.id in m.functions:
+                if f.id in m.functions and self._inlinable_helper(m, f.id):
                     return self._inline(Closure(m.functions[f.id], {}), inner, env, is_method=False)
         if isinstance(f, ast.Attribute) and _is_name(f.value, "self") and self.cls_name and \
                 not isinstance(env.get("self"), ast.AST) and f.attr not in self.no_inline:
@@ -1765,11 +1777,11 @@ class FX:
             clo = env.get(f.id)
             if isinstance(clo, Closure):
                 return self._stmts_of_value(self._inline(clo, e, env, is_method=False), e)
-            if f.id in self.mod.functions and f.id in INLINE_HELPERS:
+            if f.id in self.mod.functions and self._inlinable_helper(self.mod, f.id):
                 return self._stmts_of_value(
                     self._inline(Closure(self.mod.functions[f.id], {}), e, env, is_method=False), e)
             for m in self.extra_mods:
-                if f.id in m.functions and f.id in INLINE_HELPERS:
+                if f.id in m.functions and self._inlinable_helper(m, f.id):
                     return self._stmts_of_value(self._inline(Closure(m.functions[f.id], {}), e, env, False), e)
         if isinstance(f, ast.Attribute):
             if f.attr == "eq" and len(e.args) == 1:
